@@ -233,6 +233,8 @@ Record local_upd (i : instr) (x y : actor) : Prop := {
   lu_state : a_state y = a_state x \/ (i = ICheckMark /\ a_state x = Killing /\ a_state y = Killed) \/
              (i = IRestartFinish /\ a_state y = Running);
   lu_zombie : a_zombie y = a_zombie x \/ (i = IUnzombie /\ a_zombie y = false) \/ (i = IRestartFinish /\ a_zombie y = true);
+  lu_children : a_children y = a_children x \/ (exists sp, i = IAct (ASpawn sp)) \/ (exists w, i = IOnKilled w);
+  lu_restarting : a_restarting y = a_restarting x \/ i = IRestartFinish;
 }.
 
 Lemma local_upd_refl i x : local_upd i x x.
